@@ -107,20 +107,43 @@ theorem parseCryptWith_ne_default (t : List (List Char × HashKind)) (s : List C
       obtain ⟨p', k', hm, hpre⟩ := ih h
       exact ⟨p', k', List.mem_cons_of_mem _ hm, hpre⟩
 
-/-- `check_pw` can only say yes for a supported hash that the scheme's verifier accepts. -/
+/-- `check_pw` can only say yes for a supported hash of well-formed shape that the scheme's
+verifier accepts. -/
 theorem checkPw_true (verify : HashKind → List Char → Nat → Bool) (s : List Char) (cred : Nat)
     (h : checkPw verify s cred = true) :
-    Supported s ∧ verify (parseCrypt s) s cred = true := by
+    Supported s ∧ digestCanonical (digestShape (parseCrypt s)) s = true ∧
+      verify (parseCrypt s) s cred = true := by
   unfold checkPw at h
   by_cases hk : kindVerifies (parseCrypt s) = true
-  · simp only [hk, if_true] at h
-    refine ⟨?_, h⟩
+  · simp only [hk, if_true, Bool.and_eq_true] at h
+    refine ⟨?_, h.1, h.2⟩
     apply parseCryptWith_ne_default prefixTable s
     intro hd
     have : parseCrypt s = noPrefixKind := hd
     rw [this] at hk
     exact absurd hk (by decide)
   · simp [hk] at h
+
+/-- **Malformed sha-crypt digests never verify** (repaired D32): for a `$5$` / `$6$` field the text
+after the last `$` must be exactly 43 / 86 characters of `[./0-9A-Za-z]`; otherwise `check_pw`
+is false without the verifier being consulted — whatever it would say. -/
+theorem malformed_sha_digest_never_verifies (verify : HashKind → List Char → Nat → Bool)
+    (s : List Char) (cred : Nat)
+    (h : (parseCrypt s = .sha256 ∧ (digestOf s).length ≠ 43) ∨
+         (parseCrypt s = .sha512 ∧ (digestOf s).length ≠ 86) ∨
+         ((parseCrypt s = .sha256 ∨ parseCrypt s = .sha512) ∧ (digestOf s).all digestChar = false)) :
+    checkPw verify s cred = false := by
+  unfold checkPw
+  rcases h with ⟨hk, hl⟩ | ⟨hk, hl⟩ | ⟨hk | hk, hl⟩ <;>
+    simp [hk, kindVerifies, digestShape, digestCanonical, hl]
+
+example : digestOf "$5$saltsalt$short".toList = "short".toList := by decide
+example : checkPw (fun _ _ _ => true) "$5$saltsalt$short".toList 1 = false := by decide
+example : digestCanonical (digestShape .sha256)
+    "$5$saltsalt1$.2D7rJIcZS6MaTAFmL7U5JGXslM6CiRLRcc97p0i201".toList = true := by decide
+/-- one character appended to a valid digest: rejected before the verifier is asked -/
+example : checkPw (fun _ _ _ => true)
+    "$5$saltsalt1$.2D7rJIcZS6MaTAFmL7U5JGXslM6CiRLRcc97p0i201a".toList 1 = false := by decide
 
 /-- **Locked or empty password fields never authenticate**: a field that does not start with
 `$` (empty, `!…`, `*…`, `x`, …) parses to `Invalid`, and `Invalid` never verifies — whatever
@@ -310,7 +333,7 @@ theorem pam_fails_closed (verify : HashKind → List Char → Nat → Bool) (opt
   | daemon script => exact connected_success_needs_explicit_success opts h script hs hc
   | fallback users shadow =>
     obtain ⟨acct, s, cred, h1, h2, h3, h4, h5⟩ := (fallback_success_iff verify opts h now users shadow hs).mp hc
-    obtain ⟨h6, h7⟩ := checkPw_true verify s.pw cred h5
+    obtain ⟨h6, _, h7⟩ := checkPw_true verify s.pw cred h5
     refine ⟨acct, s, cred, h1, h2, ?_, h4, h6, h7⟩
     intro e he
     simp only [isExpired, he, expiredWhen, decide_eq_false_iff_not] at h3
@@ -421,9 +444,13 @@ example : (connected ⟨false, false⟩
       [.reply (.step .setupPin 9), .reply (.step .success 9)]).sent = [.init 7, .step .setupPin (some 3) 9] := by
   decide
 /-- fallback: supported hash that verifies, not expired -/
-example : (fallback (fun _ _ c => c == 100) firstPass alice 1000 [7] [⟨7, ['$', '6', '$', 'x'], some 2000⟩]).code = .success := by
+private def goodField : List Char := "$6$x$".toList ++ List.replicate 85 'a' ++ ['.']
+example : (fallback (fun _ _ c => c == 100) firstPass alice 1000 [7] [⟨7, goodField, some 2000⟩]).code = .success := by
   decide
-example : (fallback (fun _ _ c => c == 100) firstPass alice 2000 [7] [⟨7, ['$', '6', '$', 'x'], some 2000⟩]).code = .acctExpired := by
+example : (fallback (fun _ _ c => c == 100) firstPass alice 2000 [7] [⟨7, goodField, some 2000⟩]).code = .acctExpired := by
+  decide
+/-- the same field with one more character: `PAM_AUTH_ERR`, though the verifier would say yes -/
+example : (fallback (fun _ _ _ => true) firstPass alice 1000 [7] [⟨7, goodField ++ ['a'], some 2000⟩]).code = .authErr := by
   decide
 example : (fallback (fun _ _ _ => true) firstPass alice 1000 [7] [⟨7, ['!', '$', '6', '$', 'x'], none⟩]).code = .authErr := by
   decide
